@@ -78,6 +78,9 @@ DIRECTED = [
     # waiters on d1, a slot of d2 freed by prune without a hand-over, Mode C tick)
     '4,120000,{D};a2 a2 a2 q o0 o0 o0 q a1 q o0 q a1 a1 a1 a1 q r0 q p2 q d0 q t q o0 q',
     '5,120000,{D};a2 a2 a2 a2 q o0 o0 o0 o0 q a1 q o0 q a1 a1 a1 a1 a1 q r0 r0 q p2 q d0 q t q d0 q t q',
+    # three databases: two under-quota blocks share one free slot while the over-quota block is all lent
+    '4,20,{D};a1 a1 a1 q o0 o0 o0 q a2 q o0 q r0 q w30 t t q a2 a2 a3 a3 q d0 q t q',
+    '4,120000,{D};a1 a1 a1 q o0 o0 o0 q a2 q o0 q r0 q p1 q a2 a2 a3 a3 q d0 q t q',
 ]
 
 
@@ -148,6 +151,30 @@ def rebalance_family(rnd, drain):
     return f'{m},{20 if via_gc else 120000},{drain};' + ' '.join(ops + tail)
 
 
+def rebalance3_family(rnd, drain):
+    """three or more databases (added after seed C15/4): d1 holds most of the pool with `idle`
+    connections released to its own stack, d2 holds the rest; GC / prune closes d1's idle
+    connections; while those disconnects are in flight waiters arrive on d2, d3 (, d4); the
+    disconnects complete (free room < combined shortfall of the under-quota blocks, d1 is over
+    quota but cannot be shrunk because its connections are lent) and Mode C ticks rebalance"""
+    m = rnd.choice((4, 4, 5, 6))
+    nb = rnd.randint(1, 2) if m > 4 else 1
+    na = m - nb
+    idle = rnd.randint(1, min(2, na - 1))
+    via_gc = rnd.random() < 0.5
+    ops = ['a1'] * na + ['q'] + ['o0'] * na + ['q'] + ['a2'] * nb + ['q'] + ['o0'] * nb + ['q']
+    ops += ['r0'] * idle + ['q']
+    ops += (['w30', 't', 't', 'q'] if via_gc else ['p1', 'q'])
+    waiters = ['a2'] * rnd.randint(1, 3) + ['a3'] * rnd.randint(1, 3) + ['a4'] * rnd.randint(0, 2)
+    rnd.shuffle(waiters)
+    tail = waiters + ['q'] + ['d0'] * idle + ['q', 't', 'q']
+    tail += rnd.choice((['o0', 'q', 't', 'q'], ['t', 'q'], ['o0', 'o0', 'q', 'r0', 'q', 't', 'q']))
+    extra = ('t', 'q', 'x', 'a1', 'a2', 'a3', 'r0', 'o0', 'd0', 'w5')
+    for _ in range(rnd.randint(0, 2)):
+        tail.insert(rnd.randrange(len(tail) + 1), rnd.choice(extra))
+    return f'{m},{20 if via_gc else 120000},{drain};' + ' '.join(ops + tail)
+
+
 RB_PREFIX = 'a2 a2 a2 q o0 o0 o0 q a1 q o0 q a1 a1 a1 a1 q'
 RB_ALPHABET = ('r0', 'p2', 'd0', 't', 'q', 'a1', 'o0', 'x')
 
@@ -167,12 +194,14 @@ def gen_cases(prop, tier, drain):
         cases += list(exhaustive(4, drain))
         cases += list(rebalance_exhaustive(3, drain))
         cases += [rebalance_family(rnd, drain) for _ in range(300)]
+        cases += [rebalance3_family(rnd, drain) for _ in range(300)]
         cases += [rand_schedule(rnd, 60, drain) for _ in range(2600)]
     else:
         cases += list(exhaustive(5, drain))
         cases += list(exhaustive(4, drain, maxc=1))
         cases += list(rebalance_exhaustive(4, drain))
         cases += [rebalance_family(rnd, drain) for _ in range(3000)]
+        cases += [rebalance3_family(rnd, drain) for _ in range(3000)]
         cases += [rand_schedule(rnd, 60, drain) for _ in range(30000)]
         cases += [rand_schedule(rnd, 300, drain) for _ in range(6000)]
     return cases
@@ -358,7 +387,7 @@ def coverage(rep, prop, tier, lines, res, traces, model, mism, n_coq, extra):
     dist = {'ndb': {}, 'modes': {}, 'events': {}, 'max': {}}
     nev = 0
     outs = {}
-    rb_calls = rb_hit = rb_cases = ncancel = 0
+    rb_calls = rb_hit = rb_cases = ncancel = rb_share = 0
     for l, r in zip(lines, res):
         st = r.get('stats')
         if not st:
@@ -366,6 +395,7 @@ def coverage(rep, prop, tier, lines, res, traces, model, mism, n_coq, extra):
         rb = st.get('rebalance') or {}
         rb_calls += rb.get('calls', 0)
         rb_hit += rb.get('two_under_at_max_minus_1', 0)
+        rb_share += rb.get('several_under_sharing_room', 0)
         rb_cases += 1 if rb.get('two_under_at_max_minus_1', 0) else 0
         ncancel += st.get('cancelled', 0)
         if (st['ndb'] >= 2 or st['cap']) and st['waiter']:
@@ -407,6 +437,7 @@ def coverage(rep, prop, tier, lines, res, traces, model, mism, n_coq, extra):
         'coq_vm_compute_cross_checked': n_coq,
         'maybe_rebalance_calls': rb_calls,
         'maybe_rebalance_calls_with_a_block_2_under_quota_at_max_minus_1': rb_hit,
+        'maybe_rebalance_calls_with_several_under_quota_blocks_sharing_less_room': rb_share,
         'schedules_reaching_that_configuration': rb_cases,
         'acquire_tasks_cancelled': ncancel,
         'distributions': {'databases_per_schedule': dict(sorted(dist['ndb'].items())),
